@@ -55,6 +55,7 @@ def c02(tier):
     for n, L in ((1, 5), (2, 6), (3, 7)) if tier == "quick" else ((1, 6), (2, 7), (3, 8), (4, 9)):
         sc = {"prop": "C02", "cfgs": chains2(cfgs(kinds, [n]), sma(2)), "alphabet": [-2, 0, 3], "unit": 1, "maxlen": L, "extras": True}
         run.submit(p1_job, "w-chain-n%d" % n, "MC_Def", sc)
+    f32_job(run, "C02", cfgs(kinds, [2, 3]), [-2, 0, 1, 3], 6)
     for m in ("Ind_Sma", "Ind_Ext", "Ind_HL", "Ind_Count"):
         run.submit(apalache_job, m)
     norm = ["HLNormalizer", "Roc", "BinaryEntropy", "Vsct", "Vst"]
@@ -82,6 +83,10 @@ def c02(tier):
     return run.finish("every input sequence over the alphabet up to maxlen, for every listed view and window length; "
                       "non-trivial = states in which the definition fixes the answer (exact value, fixed-point value, None or hold)")
 
+def f32_job(run, prop, cf, alphabet, L, name="f32"):
+    """the same definitions on the f32 instantiation of the views (T: Float is generic): 1e-4 relative"""
+    run.submit(p1_job, name, "MC_Def", {"prop": prop, "cfgs": cf, "alphabet": alphabet, "unit": 1, "maxlen": L, "float": "f32", "eps": [1, 10000]})
+
 RULE_DEF = ("every input sequence over the alphabet up to maxlen, for every listed view and window length; "
             "non-trivial = states in which the definition fixes the answer (exact value, fixed-point value, None or hold)")
 
@@ -97,6 +102,7 @@ def c05(tier):
             run.submit(p1_job, "rsi-n%d-a%d" % (n, alpha[0]), "MC_Def", sc)
             with_model(run, "rsi-n%d-a%d" % (n, alpha[0]), sc)
     run.submit(apalache_job, "Ind_MyRsi")
+    f32_job(run, "C05", cfgs(kinds, [1, 2, 3]), [-2, 0, 2], 6)
     for n, L in ((2, 5), (3, 6)):
         run.submit(p1_job, "rsi-tiny-n%d" % n, "MC_Def", {"prop": "C05", "cfgs": cfgs(kinds, [n]), "alphabet": [0, 1, 2, 3], "unit": 1000000000, "maxlen": L})
         run.submit(p1_job, "rsi-huge-n%d" % n, "MC_Def", {"prop": "C05", "cfgs": cfgs(kinds, [n]), "alphabet": [-2000000, 0, 1000000, 3000000], "unit": 1, "maxlen": L})
@@ -129,6 +135,7 @@ def c06(tier):
             "xs": shapes(rnd, n, -40 if k != "CenterOfGravity" else 1, 40, 250 if tier == "quick" else 2000), "k": 1}
            for k in kinds for n in ((9, 16, 20, 48) if tier == "quick" else (9, 16, 20, 48, 100))]
     run.submit(p3_stream_job, "trend-big", "C06", big)
+    f32_job(run, "C06", cfgs(kinds, [3, 4]), [-2, 0, 1, 3], 6)
     return run.finish(RULE_DEF + "; plus recorded streams at larger N validated on the ghost window (P3)")
 
 @check("C13")
@@ -145,6 +152,7 @@ def c13(tier):
     E_ = {"k": "Echo"}
     inn = [{"k": "Sma", "n": 2}, {"k": "Add", "c": [E_, {"k": "Constant", "v": [3, 2]}]}, {"k": "Max", "n": 2}]
     ch = [dict(c, c=[i]) for c in cf for i in inn]
+    f32_job(run, "C13", cf, [1, 2, 4, 7], 6)
     run.submit(p1_job, "roll-chain", "MC_Def", {"prop": "C13", "cfgs": ch, "alphabet": [1, 2, 4, 7], "unit": 1, "maxlen": L - 1, "extras": True})
     # long positive streams (new peaks after deeper troughs, repeated peaks, monotone runs): exact running sums in the ghost state
     rnd = random.Random(77 + run.seed)
@@ -220,6 +228,7 @@ def c11(tier):
         for k in (-70, 60):
             run.submit(p1_job, "units-inv-n%d-p%d" % (n, k), "MC_Def", {"prop": "C11", "cfgs": inv, "alphabet": [0, 1, 3], "unit": 1, "maxlen": L, "pow2": k})
             run.submit(p1_job, "units-lin-n%d-p%d" % (n, k), "MC_Def", {"prop": "C11", "cfgs": lin, "alphabet": [0, 1, 3], "unit": 1, "maxlen": L, "pow2": k, "outpow2": -k})
+    f32_job(run, "C11", [v for n_ in (2, 3) for v in views(n_) if v["k"] in ("SuperSmoother", "RoofingFilter", "CyberCycle")] + lag[:3], [0, 1, 3], 7)
     run.submit(p1_job, "laguerre", "MC_Def", {"prop": "C11", "cfgs": lag, "alphabet": [-2, 0, 1, 3], "unit": 1, "maxlen": 6 if tier == "quick" else 8})
     return run.finish(RULE_DEF)
 
@@ -294,6 +303,7 @@ def c04(tier):
         for cfg in ({"k": "Alma", "n": n}, sma(n)):
             st.append({"cfg": cfg, "unit": 10, "mode": "window", "eps": [1, 100000000], "float": "f64", "xs": shapes(rnd, n, -500, 500, 150), "k": 1})
     run.submit(p3_stream_job, "avg-big", "C04", st)
+    f32_job(run, "C04", c04_cfgs(2) + c04_cfgs(3), [-2, 0, 1, 3], 6)
     # interval clause on streams of wide dynamic range (large values, then more than a window nine decades smaller)
     iv = []
     for n in ((1, 2, 3, 5, 21) if tier == "quick" else (1, 2, 3, 4, 5, 8, 13, 21, 50)):
